@@ -449,6 +449,80 @@ def shrink(drv, orc, line, kind0, res):
     return " | ".join(f)
 
 
+# ------------------------------------------------------------------------------------------------ grid inner products (U lines)
+def gen_U(rng, tier):
+    """three grid-aligned diagrams on one coarse grid (coarse, so that a single cell matters); levels often end at the same
+    grid point in two of them (equal largest deaths, <p,p>)"""
+    N = rng.choice([4, 8, 8, 16])
+    step = rng.choice([2, 4, 8])
+    g0 = rng.choice([0, 0, 16, -8])
+    Ds = []
+    for t in range(3):
+        if t and rng.random() < 0.3:
+            Ds.append(list(Ds[rng.randrange(t)]))       # the same diagram again
+            continue
+        D = aligned_diagram(rng, N, step, g0, 4 if tier == "quick" else 6)
+        if t and Ds[0] and D and rng.random() < 0.5:    # share the largest death with the first diagram
+            dmax = max(d for (_, d) in Ds[0])
+            b = min(b for (b, _) in D)
+            if b < dmax:
+                D[0] = (b, dmax)
+        Ds.append(D)
+    return "U %d | %s | %d %d %d" % (DEN, " ; ".join(dstr(D) for D in Ds), g0, g0 + N * step, N)
+
+
+def check_U(line, obs):
+    """exact cell-wise integral of the product of the piecewise-linear interpolants of the stored grid values (first cell from
+    grid_min - dx with value 0, as the class defines it), compared with compute_scalar_product; plus symmetry / bilinearity of the
+    implementation's own numbers.  returns list of (kind, what, expected, observed)"""
+    if obs.startswith(("CRASH", "DIED", "EXC", "BAD")):
+        return [("U:crash", "implementation: %s | %s" % (obs[:80], line[:200]), None, obs[:200])]
+    secs = [x.strip() for x in obs.split(" # ")]
+    if len(secs) != 4:
+        return [("U:format", "unparsable answer", None, obs[:200])]
+    f = [x.strip() for x in line.split("|")]
+    g = f[2].split()
+    den = Fraction(int(f[0].split()[1]))
+    gmin, gmax, N = Fraction(int(g[0])) / den, Fraction(int(g[1])) / den, int(g[2])
+    vals = []
+    for t in range(3):
+        levels = [[Fraction(x) for x in lv.split()] for lv in secs[t].split(";")] if secs[t] else []
+        vals.append(levels)
+    npoints = max([len(lv) for t in range(3) for lv in vals[t]] or [N + 1])      # the class stores N + 1 grid points
+    dx = (gmax - gmin) / (npoints - 1)
+    got = {}
+    for w in secs[3].split():
+        k, v = w.split("=")
+        got[k] = Fraction(v) if re.match(r"^-?\d+(/\d+)?$", v) else Fraction(float.fromhex(v))
+
+    def ip(a, b):
+        tot = Fraction(0)
+        for k in range(min(len(a), len(b))):
+            pa, pb = Fraction(0), Fraction(0)
+            for i in range(len(a[k])):
+                ca, cb = a[k][i], (b[k][i] if i < len(b[k]) else Fraction(0))
+                tot += dx * (pa * pb + ca * cb) / 3 + dx * (pa * cb + ca * pb) / 6
+                pa, pb = ca, cb
+        return tot
+    A, B, C = vals
+    exp = {"ipAB": ip(A, B), "ipBA": ip(B, A), "ipAA": ip(A, A), "ipAC": ip(A, C), "ipBC": ip(B, C), "ipCC": ip(C, C)}
+    out = []
+    tol = Fraction(1, 10 ** 7)
+    for k, e in exp.items():
+        if abs(got[k] - e) > tol * max(1, abs(e)):
+            out.append(("U:grid-inner-product", "compute_scalar_product on grids: %s = %s, the exact integral of the product of the stored "
+                        "piecewise-linear functions is %s | %s" % (k, float(got[k]), float(e), line[:200]), str(e), str(got[k])))
+            break
+    laws = [("symmetric", abs(got["ipAB"] - got["ipBA"])), ("additive", abs(got["ipSC"] - got["ipAC"] - got["ipBC"])),
+            ("additive-right", abs(got["ipCS"] - got["ipAC"] - got["ipBC"])), ("homogeneous", abs(got["ip2AB"] - 2 * got["ipAB"]))]
+    for nm, err in laws:
+        if err > tol * max(1, abs(got["ipAB"]), abs(got["ipAC"]), abs(got["ipBC"])):
+            out.append(("U:grid-inner-product-not-" + nm, "inner product of grid landscapes is not %s on the implementation's own numbers (error %s) | %s"
+                        % (nm, float(err), line[:200]), "0", str(float(err))))
+            break
+    return out
+
+
 def check(ctx, replay=None):
     res = core.Result()
     if not getattr(ctx, "skip_proof", False):
@@ -467,6 +541,29 @@ def check(ctx, replay=None):
                     if l and not l.startswith("#"):
                         corpus.append(l)
         lines = generate(ctx.rng, ctx.tier, corpus)
+    # grid inner products: self-checking lines (exact integral from the stored values; symmetry and bilinearity)
+    ulines = [l for (l, _) in lines if l.startswith("U ")]
+    lines = [(l, m) for (l, m) in lines if not l.startswith("U ")]
+    if not replay:
+        ulines += [gen_U(ctx.rng, ctx.tier) for _ in range(150 if ctx.tier == "quick" else 1500)]
+    if ulines:
+        groups = [("C 1", ulines[i:i + 40]) for i in range(0, len(ulines), 40)]
+        uo = [a for (_, ans) in core.run_grouped_parallel(drv, groups, timeout=1200, max_restarts=6, cpu=90) for a in ans]
+        useen = set()
+        for l, a in zip(ulines, uo):
+            res.evaluations += 10
+            res.count("line:U:grid-inner-products")
+            res.traces_validated += 1
+            for (kind, what, ex, ob) in check_U(l, a):
+                if kind not in useen:
+                    useen.add(kind)
+                    res.violation(kind, what, {"line": l}, expected=ex, observed=ob)
+        res.extra["grid_inner_product_lines"] = len(ulines)
+    if replay and not lines:
+        res.distinct = set(ulines)
+        res.rule = "replay of one stored case"
+        return core.finish(ctx, None, res, TRUSTED, ASSUMPTIONS, LEVEL, "cd /verif/coq && make -f Makefile.coq Properties_C18.vo",
+                           correspondence_name=CORRESPONDENCE)
     ctx.log("%d input lines" % len(lines))
     o, e = run_lines(drv, orc, [l for (l, _) in lines])
     # the same lines (a prefix) under AddressSanitizer/UBSan: reads past the end that happen not to change a value
@@ -510,7 +607,7 @@ def check(ctx, replay=None):
                             break
                     continue
             res.violation(kind, what, {"line": line}, expected=ex, observed=ob, no_input=rep_only)
-    res.distinct = {l for (l, _) in lines}
+    res.distinct = {l for (l, _) in lines} | set(ulines)
     res.rule = ("one case = one input line (kind X/E/T/G/H, diagram(s), level bound or grid or program, evaluation points); distinct = distinct "
                 "lines; every line builds at least one landscape and compares all levels 0..n at every candidate breakpoint "
                 "(b, d, (b_i+d_j)/2), every midpoint between neighbours, neighbours +1/16 and points far outside; evaluations = number of "
